@@ -303,6 +303,8 @@ def run(ctx):
         results = scen.parallel(gens, lambda g: drive(ctx, g, gs, ssx, leaf, n_rounds), jobs=6)
     for g, rows in zip(gens, results):
         evaluate(ctx, g, gs, ssx, rows)
+        if rows and rows[0][0] != "load":
+            whole_response_logs(ctx, g, gs, rows)
     deep_inputs(ctx)
     custom_operations(ctx)
 
@@ -663,6 +665,48 @@ def models_in(gs, v):
     if isinstance(v, list) and v and isinstance(v[0], Sym) and v[0].name == "l":
         return [x for item in v[1:] for x in models_in(gs, item)]
     return []
+
+
+def whole_response_logs(ctx, g, gs, rows):
+    """K2/K3 for Py/ParseLog.v: the model's parse log of validating each driven response against the classes
+    Model/Results.v generates for the operation (C01's K1 ties those classes to the generated modules) vs the REAL log
+    of the instrumented parse functions; the uniqueness guard of C07_parse_once_response is evaluated on every payload."""
+    from graphql import FragmentDefinitionNode, OperationDefinitionNode
+    from ..canon import encode
+
+    run = ctx.run
+    doc = parse(g.sc.queries)
+    frs = [d for d in doc.definitions if isinstance(d, FragmentDefinitionNode)]
+    ops = {d.name.value: d for d in doc.definitions if isinstance(d, OperationDefinitionNode)}
+    cfg = g.res.get("config", {})
+    C = [cfg.get("convert_to_snake_case", True), encode.scalars_cfg(cfg)]
+    es, ef = encode.schema(gs), [encode.frag(f) for f in frs]
+    opname = {"results": "Results", "abstract": "Abstract", "cond": "Cond"}
+    todo = [(kind, data, r) for kind, _mode, data, r in rows if kind in opname and not r.get("exc")]
+    if not todo:
+        return
+    cmds = [[Sym("parselog"), 400, C, es, ef, encode.operation(ops[opname[kind]]), [json_sx(data)]] for kind, data, r in todo]
+    for (kind, data, r), res in zip(todo, model.batch(ENGINE, cmds, jobs=4)):
+        run.count()
+        if res[0] != "ok":
+            run.dist("whole_response_log", f"model-refuses:{kind}:{str(res[1])[:40]}")
+            continue
+        plog_m, pocc_m, uniq_m, acc_m = res[1][0]
+        rep = {"config": g.sc.config, "operation": kind, "response": data}
+        real = [canon_logged(e[2]) for e in (r.get("log_call") or []) if e[0] == "parse"]
+        unlogged = {SCALARS[s]["type"].rsplit(".", 1)[-1] for s in UNLOGGED}
+        mod = [sx_json(e[1]) for e in plog_m if e[0] not in unlogged]
+        occ = [sx_json(e[1]) for e in pocc_m if e[0] not in unlogged]
+        run.dist("whole_response_log", f"{kind}:uniq={uniq_m}:accepts={acc_m}")
+        if acc_m != "t":
+            argenc.k1v(run, f"K2 whole response ({kind}): the model's classes do not accept a response the real classes accepted", rep)
+            continue
+        if uniq_m != "t":
+            argenc.k1v(run, f"K2 whole response ({kind}): the uniqueness guard of C07_parse_once_response fails on a driven payload", rep)
+        if multiset(mod) != multiset(real):
+            argenc.k1v(run, f"K2 whole response ({kind}): model parse log {mod[:5]} vs real {real[:5]}", dict(rep, model=mod, real=real))
+        if multiset(mod) != multiset(occ):
+            argenc.k1v(run, f"K2 whole response ({kind}): plog is no permutation of pocc", rep)
 
 
 def evaluate(ctx, g, gs, ssx, rows):
